@@ -13,10 +13,10 @@ E2 suites:
   dict_call  Dict(p=1, q=2)(**definitions): every digraph without self-loops on m derived keys x every keyword
              order; the generated functions return (name, *values seen) so a result proves the evaluation order.
              Oracle: Kahn's algorithm on the parameter names; a cyclic graph must raise ValueError.  Every call
-             runs under a deterministic fuel monitor (line events inside Dict.__call__) so a hang is a verdict.
+             runs under a deterministic fuel monitor (sys.monitoring LINE events on the code object of
+             Dict.__call__ only) so a hang is a verdict, not a wait for the watchdog.
 """
 import itertools
-import os
 import sys
 
 from mc.engine import Suite, Out
@@ -30,6 +30,7 @@ ASSUMPTIONS = [
     'mapping keys are plain strings that neither contain a dot, start with an underscore nor shadow a dict / dictattr attribute '
     '(keys, items, copy ...); values are ints or lists, never dicts (Dict + other is a tree merge on nested dicts: that is C15)',
     "d - ('a', 'b') with a tuple is nested-path deletion and is excluded; d | other is not named by the statement and is not checked",
+    'the right operand of d + other is a flat dict, dictattr, Dict or an instance of the user subclass of Dict',
     'key ORDER of a result is compared only for d - keys (the statement equates it with the ulist d.keys() - k); for &, d[[...]], '
     '+ and relabel the key set and the value objects are compared',
     'relabel: clashing relabels (two keys mapped to one name) are excluded; the list-of-new-names spelling is used only on '
@@ -38,7 +39,7 @@ ASSUMPTIONS = [
     'Dict.__call__: self-referencing definitions (a = lambda a: ...) are excluded; no derived key is called "key" (the name '
     'Dict passes the key under); every parameter of a definition names a base key, a constant keyword or another definition',
     'Dict.__call__ non-termination is decided by a fuel bound of %d line events inside Dict.__call__ (a correct call on 6 '
-    'definitions needs < 300); the engine watchdog remains as a safety net',
+    'definitions needs < 100); the engine watchdog remains as a safety net',
 ]
 
 # ================================================================================================ ulist
@@ -344,7 +345,7 @@ def check_mapping(case):
                 out.call()
                 result(res, [(k, vals[k]) for k in keys if k not in argl], True, what, '-', d, sel=skind, spell=spell)
             except Exception as e:
-                out.viol('raised', '%s raised %s: %s' % (what, type(e).__name__, e), op='-', cls=cname, sel=skind, spell=spell)
+                out.viol('raised', '%s raised %s: %s' % (what, type(e).__name__, e), op='-', cls=cname, sel=skind, spell=spell, exc=type(e).__name__)
             intact(d, what, '-')
             # the statement's own spelling: (d - k).keys() == d.keys() - k
             d = fresh()
@@ -356,7 +357,7 @@ def check_mapping(case):
                              op='-', cls=cname, sel=skind, spell=spell)
             except Exception as e:
                 out.viol('raised', '(d - k).keys() == d.keys() - k raised %s: %s for d = %s, k = %r' % (type(e).__name__, e, shown, arg),
-                         op='keys-law', cls=cname, sel=skind, spell=spell)
+                         op='keys-law', cls=cname, sel=skind, spell=spell, exc=type(e).__name__)
             intact(d, what + ' / keys()', '-')
             # d & keys
             d = fresh()
@@ -366,7 +367,7 @@ def check_mapping(case):
                 out.call()
                 result(res, [(k, vals[k]) for k in keys if k in argl], False, what, '&', d, sel=skind, spell=spell)
             except Exception as e:
-                out.viol('raised', '%s raised %s: %s' % (what, type(e).__name__, e), op='&', cls=cname, sel=skind, spell=spell)
+                out.viol('raised', '%s raised %s: %s' % (what, type(e).__name__, e), op='&', cls=cname, sel=skind, spell=spell, exc=type(e).__name__)
             intact(d, what, '&')
             if spell == 'list' and not _same(arg, sel):
                 out.viol('operand-mutated', 'the key list %r became %r' % (sel, arg), op='-&', cls=cname, side='right')
@@ -380,7 +381,7 @@ def check_mapping(case):
                 out.call()
                 result(res, [(k, vals[k]) for k in keys if k in sel], False, what, '[list]', d, sel=skind)
             except Exception as e:
-                out.viol('raised', '%s raised %s: %s' % (what, type(e).__name__, e), op='[list]', cls=cname, sel=skind)
+                out.viol('raised', '%s raised %s: %s' % (what, type(e).__name__, e), op='[list]', cls=cname, sel=skind, exc=type(e).__name__)
             intact(d, what, '[list]')
             if sel:
                 # d[k1, k2] -> list of values
@@ -393,7 +394,7 @@ def check_mapping(case):
                     if type(res) is not list or len(res) != len(sel) or any(v is not vals[k] for v, k in zip(res, sel)):
                         out.viol('wrong-values-list', '%s: expected the list %r got %r' % (what, [vals[k] for k in sel], res), op='[tuple]', cls=cname)
                 except Exception as e:
-                    out.viol('raised', '%s raised %s: %s' % (what, type(e).__name__, e), op='[tuple]', cls=cname, sel=skind)
+                    out.viol('raised', '%s raised %s: %s' % (what, type(e).__name__, e), op='[tuple]', cls=cname, sel=skind, exc=type(e).__name__)
                 intact(d, what, '[tuple]')
 
     # ---- d + other
@@ -417,7 +418,7 @@ def check_mapping(case):
                 if isinstance(res, dict) and not (dict(res) == {**d, **o}):
                     out.viol('wrong-keys', '%s: d + o != {**d, **o}: got %r' % (what, dict(res)), op='+', cls=cname, other=okind, sel=okd, law=True)
             except Exception as e:
-                out.viol('raised', '%s raised %s: %s' % (what, type(e).__name__, e), op='+', cls=cname, other=okind, sel=okd)
+                out.viol('raised', '%s raised %s: %s' % (what, type(e).__name__, e), op='+', cls=cname, other=okind, sel=okd, exc=type(e).__name__)
             intact(d, what, '+')
             if raw(o) != pairs or any(x[1] is not y[1] for x, y in zip(raw(o), pairs)):
                 out.viol('operand-mutated', '%s changed the right operand to %r' % (what, raw(o)), op='+', cls=cname, side='right')
@@ -438,7 +439,7 @@ def check_mapping(case):
             out.call()
             result(res, [(newname(k), vals[k]) for k in keys], False, what, 'relabel', d, how=rk)
         except Exception as e:
-            out.viol('raised', '%s raised %s: %s' % (what, type(e).__name__, e), op='relabel', cls=cname, how=rk)
+            out.viol('raised', '%s raised %s: %s' % (what, type(e).__name__, e), op='relabel', cls=cname, how=rk, exc=type(e).__name__)
         intact(d, what, 'relabel')
         changed = sum(1 for k, n in zip(keys, new) if k != n)
         out.cls('relabel-none' if changed == 0 else ('relabel-all' if changed == len(keys) else 'relabel-some'))
@@ -456,7 +457,7 @@ def gen_mappings(universe):
 
 # ================================================================================================ Dict.__call__
 
-FUEL = 6000
+FUEL = 3000
 BASEDEPS = [['p'], ['q'], ['p', 'q'], [], ['q', 'p'], ['p']]          # which base keys definition #i reads
 _MON = {}
 
@@ -467,36 +468,52 @@ class NonTermination(BaseException):
     pass
 
 
-class _Fuel:
-    """counts line events inside Dict.__call__ (frames of pyg_base/_dict.py named __call__) and aborts beyond FUEL"""
+_TOOL = 4                    # a free sys.monitoring tool id (0-2 and 5 are reserved names)
 
-    def __init__(self):
-        if 'file' not in _MON:
-            import pyg_base._dict as D
-            _MON['file'] = D.__file__
-            _MON['real'] = os.path.realpath(D.__file__)
-        self.steps = 0
 
-    def glob(self, frame, event, arg):
-        co = frame.f_code
-        if co.co_name == '__call__' and (co.co_filename == _MON['file'] or os.path.realpath(co.co_filename) == _MON['real']):
-            return self.local
-        return None
+def _on_line(code, lineno):
+    _MON['steps'] += 1
+    if _MON['steps'] > FUEL:
+        raise NonTermination()
 
-    def local(self, frame, event, arg):
-        if event == 'line':
-            self.steps += 1
-            if self.steps > FUEL:
-                raise NonTermination()
-        return self.local
 
-    def run(self, f):
-        old = sys.gettrace()
-        sys.settrace(self.glob)
+def _trace_local(frame, event, arg):
+    if event == 'line':
+        _on_line(None, 0)
+    return _trace_local
+
+
+def _trace_global(frame, event, arg):
+    return _trace_local if frame.f_code is _MON['code'] else None
+
+
+def _fuelled(f):
+    """run f() counting the line events inside the frames of Dict.__call__ (its code object is taken from the class under
+    test); beyond FUEL events NonTermination is raised inside that frame.  sys.monitoring local events cost nothing outside
+    that one code object; sys.settrace is the fallback for interpreters without it."""
+    if 'code' not in _MON:
+        fn = _classes()['Dict'].__dict__.get('__call__')
+        _MON['code'] = getattr(fn, '__code__', None)
+    code = _MON['code']
+    _MON['steps'] = 0
+    if code is None:
+        return f()
+    mon = getattr(sys, 'monitoring', None)
+    if mon is not None:
+        if mon.get_tool(_TOOL) is None:
+            mon.use_tool_id(_TOOL, 'c16-fuel')
+        mon.register_callback(_TOOL, mon.events.LINE, _on_line)
+        mon.set_local_events(_TOOL, code, mon.events.LINE)
         try:
             return f()
         finally:
-            sys.settrace(old)
+            mon.set_local_events(_TOOL, code, 0)
+    old = sys.gettrace()
+    sys.settrace(_trace_global)
+    try:
+        return f()
+    finally:
+        sys.settrace(old)
 
 
 def _plan(case):
@@ -553,14 +570,7 @@ def check_call(case):
         expect.update(val)
     has_edge = any(p in names for n in names for p in params[n])
     items = names + list(consts)
-    if case.get('orders') == 'rotations':
-        orders = []
-        for r in range(len(items)):
-            rot = items[r:] + items[:r]
-            orders.append(rot)
-            orders.append(rot[::-1])
-    else:
-        orders = [list(p) for p in itertools.permutations(items)]
+    orders = [list(p) for p in itertools.permutations(items)]          # every keyword order
     out.cls(('acyclic' if has_edge else 'acyclic-no-edges') if val is not None else 'cyclic')
     sig = dict(variant=variant, cyclic=val is None)
     for oi, order in enumerate(orders):
@@ -573,7 +583,7 @@ def check_call(case):
             kwargs[n] = funcs[n] if n in funcs else consts[n]
         what = '%s(p=1, q=2)(%s)' % (cname, ', '.join('%s=%s' % (n, src[n] if n in src else repr(consts[n])) for n in order))
         try:
-            res = _Fuel().run(lambda: d(**kwargs))
+            res = _fuelled(lambda: d(**kwargs))
             out.call()
             raised = None
         except NonTermination:
@@ -655,17 +665,20 @@ def _families(m):
 
 
 def gen_calls(tier):
-    mmax = 3 if tier == 'quick' else 4
-    for m in range(1, mmax + 1):
-        for deps in _digraphs(m):
-            for variant in ('plain', 'override', 'const'):
-                for cname in (('Dict', 'SubDict') if (m <= 3 or variant == 'plain') else ('Dict',)):
-                    yield {'m': m, 'deps': deps, 'variant': variant, 'cls': cname, 'orders': 'all'}
+    quick = tier == 'quick'
+    for m in range(1, 5):
+        graphs = list(_digraphs(m))
+        for variant in ('plain', 'override', 'const'):          # variant outside the graph loop: neighbouring cases cost the same
+            if m == 4 and quick and variant != 'plain':
+                continue
+            for cname in (('Dict', 'SubDict') if (m <= 3 or (variant == 'plain' and not quick)) else ('Dict',)):
+                for deps in graphs:
+                    yield {'m': m, 'deps': deps, 'variant': variant, 'cls': cname}
     if tier != 'quick':
         for m in (5, 6):
             for name, deps in _families(m):
                 for variant, cname in (('plain', 'Dict'), ('override', 'SubDict')):
-                    yield {'m': m, 'deps': deps, 'variant': variant, 'cls': cname, 'orders': 'all', 'family': name}
+                    yield {'m': m, 'deps': deps, 'variant': variant, 'cls': cname, 'family': name}
 
 
 # ================================================================================================ suites
@@ -688,10 +701,10 @@ def suites(tier, seed):
                    'selections / others / relabels touching some but not all keys (mixed present and absent)' % (universe, nsel),
               bounds=dict(keys=len(universe), selections=nsel, classes=3)),
         Suite('dict_call', lambda: gen_calls(tier), check_call,
-              rule='Dict(p=1, q=2)(**definitions): every digraph without self-loops on m <= %d definitions x every keyword order (m!, and (m+1)! '
+              rule='Dict(p=1, q=2)(**definitions): every digraph without self-loops on m <= 4 definitions x every keyword order (m!, and (m+1)! '
                    'with a constant keyword q=20) x {plain, a definition overriding base key p, a constant keyword}%s; non-trivial = (graph, '
                    'order) pairs with at least one edge among the definitions' % (
-                       3 if quick else 4, '' if quick else '; m = 5, 6: %d structured families (chains, trees, stars, diamonds, total order, every '
+                       ' (m = 4: plain only)' if quick else '; m = 5, 6: %d structured families (chains, trees, stars, diamonds, total order, every '
                        'single cycle, cycle with tail in both directions, two disjoint cycles) x all 120 / 720 orders' % len(_families(6))),
-              bounds=dict(max_definitions_exhaustive=3 if quick else 4, max_definitions_families=0 if quick else 6, fuel=FUEL)),
+              bounds=dict(max_definitions_exhaustive=4, max_definitions_all_variants=3 if quick else 4, max_definitions_families=0 if quick else 6, fuel=FUEL)),
     ]
